@@ -344,6 +344,37 @@ pub fn run(run: &Run) {
         run.set("full_u32_sweep", json!("all 2^32 values of the u32 field of SetChunkSize, Abort, Acknowledgement, WindowAcknowledgement, SetPeerBandwidth(dynamic), PingRequest and SetBufferLength (both fields); the other limit types and user-control events for every 16th value and all values near 0, 2^16, 2^31, 2^32"));
     }
 
+    // ---- no conversion depends on the one before it: every ordered pair over a menu of one message per variant
+    //      and limit/event code, both directions each, on one thread ----
+    {
+        let mut menu: Vec<M> = Vec::new();
+        menu.extend(u32_messages(5));
+        menu.extend(u32_messages(0x8000_0001));
+        menu.push(M::Audio(vec![1, 2, 3]));
+        menu.push(M::Video(vec![]));
+        menu.push(M::Command { name: "connect".into(), tx: 1f64.to_bits(), object: V::Obj(vec![("app".into(), V::Str("a".into()))]), args: vec![V::Arr(vec![V::Null; 3])] });
+        menu.push(M::Command { name: "_result".into(), tx: 2f64.to_bits(), object: V::Undef, args: vec![] });
+        menu.push(M::Data(vec![V::Str("onMetaData".into()), V::Obj(vec![("width".into(), V::Num(0))])]));
+        menu.push(M::Unknown(99, vec![9, 9]));
+        let mut pairs = 0u64;
+        for a in menu.iter() {
+            for b in menu.iter() {
+                pairs += 1;
+                let (ta, ba) = r2::encode(a);
+                let _ = check_message(a, 1, 1);
+                let _ = check_decode(ta, &ba, &Ok(a.clone()));
+                let (tb, bb) = r2::encode(b);
+                for r in [check_message(b, 2, 1), check_decode(tb, &bb, &Ok(b.clone()))] {
+                    if let Err((sg, d)) = r {
+                        run.violation(&format!("{}/after-another-message", sg), &format!("after converting {}: {}", short(a), d), json!({"first": short(a), "then": short(b)}));
+                    }
+                }
+            }
+        }
+        evals.fetch_add(pairs, Ordering::Relaxed);
+        run.count("ordered_pairs_of_conversions", pairs);
+    }
+
     let e = evals.load(Ordering::Relaxed);
     run.set("evaluations", json!(e));
     run.set("distinct_nontrivial", json!(e));
